@@ -6,6 +6,18 @@ import subprocess
 ROOT = os.path.dirname(os.path.dirname(os.path.abspath(__file__)))
 
 CHECKS = {
+    "C11": dict(
+        technique="TLA+ state machine of view selection (Views.tla) model-checked by TLC; the complete closed state graph "
+                  "(-dump dot,actionlabels) is replayed transition by transition on the real module, disabled selectors must raise",
+        category="model_checking", design="4/C11",
+        text="Views.tla defines what every selector denotes (dense local ranks inside the current view, scope, edge inclusion, "
+             "groups, channel and synapse-type views, loc, select). TLC computes the closed state graph of the selector alphabet on "
+             "three irregular modules (all chains of any length), checks EdgesAmongRows, DenseLocal, NonEmpty and Narrowing, and "
+             "every transition of the graph is executed on the real jaxley with rotating index forms (int, list, array, range, "
+             "slice, mask, all); every selector the specification disables must raise; iteration and lazy [] are compared with "
+             "the method form.",
+        note="Trusted: TLC, the dot parser. Bounded to 3 modules and index sets over 0..2; write confinement of mutating "
+             "calls is decided by C19/C10 (projection compare after every call)."),
     "C01": dict(
         technique="TLA+ spec over Z_p (Field/Morph/Cable/Hines/Csc) model-checked by TLC on every forest x compartment "
                   "counts; field-generic evaluator cross-checked against TLC mod p; spec->code replay of every "
